@@ -314,6 +314,8 @@ type Injector struct {
 	File       int      `json:"file,omitempty"`  // which injector file (0,1,..)
 	Doc        string   `json:"doc,omitempty"`
 	RawResults []string `json:"raw_results,omitempty"`
+	// ResultNames: names the template gives its results (value, then cleanup and error as declared).
+	ResultNames []string `json:"result_names,omitempty"`
 }
 
 // Pkg is a package of the program.
@@ -347,6 +349,8 @@ type Program struct {
 	// mutants that empty a package stay well-formed.
 	BlankLibs string `json:"blank_libs,omitempty"`
 	InjRaw    string `json:"inj_raw,omitempty"`
+	// InjImports: extra imports (path -> name) of injector file 0, for InjRaw to use.
+	InjImports map[string]string `json:"inj_imports,omitempty"`
 	// InjRawB: raw declarations added to injector file 1 (if the program has one)
 	InjRawB string `json:"inj_raw_b,omitempty"`
 	// AliasImports: the user's files import the program's own packages under an alias that
@@ -473,6 +477,7 @@ func (p *Program) Clone() *Program {
 		c.Result = cty(in.Result)
 		c.Build = append([]Ref(nil), in.Build...)
 		c.RawResults = append([]string(nil), in.RawResults...)
+		c.ResultNames = append([]string(nil), in.ResultNames...)
 		q.Injs = append(q.Injs, &c)
 	}
 	if p.Extra != nil {
@@ -492,6 +497,12 @@ func (p *Program) Clone() *Program {
 	q.InjBlankImports = append([]string(nil), p.InjBlankImports...)
 	q.BlankLibs = p.BlankLibs
 	q.InjRaw = p.InjRaw
+	if p.InjImports != nil {
+		q.InjImports = map[string]string{}
+		for k, v := range p.InjImports {
+			q.InjImports[k] = v
+		}
+	}
 	q.InjRawB = p.InjRawB
 	return q
 }
